@@ -665,7 +665,9 @@ class SDict:
             self._witness = w
             return True
         self._empty = True
-        self.dom = z3.K(z3.IntSort(), z3.BoolVal(False))
+        empty = z3.K(z3.IntSort(), z3.BoolVal(False))
+        ctx.add(self.dom == empty)   # extensional: whatever was known about the domain must be consistent with emptiness
+        self.dom = empty
         return False
 
     def get(self, k, default=None):
